@@ -67,3 +67,12 @@ Proof.
     - reflexivity. }
   split; [repeat constructor|]. split; [vm_compute; reflexivity|reflexivity].
 Qed.
+
+(* ---- tie to the source: the integer literals of the functions this property's model stands for
+   (private constants, bounds, unit factors; the files are SiteMap.files_C05) are today the ones the
+   model was written against. Gen/Sites.v num_literals is regenerated from /repo on every run; a
+   changed, added or removed number in a modelled function breaks this obligation ---- *)
+Require RV.Gen.Sites RV.Model.SiteMap.
+Theorem C05_literals_reviewed : RV.Model.SiteMap.literals_ok RV.Model.SiteMap.files_C05.
+Proof. repeat constructor. Qed.
+Print Assumptions C05_literals_reviewed.
